@@ -25,7 +25,16 @@ def cases(tier, seed):
     ids = list(range(N))
     random.Random(f"c19:{seed}").shuffle(ids)
     if tier == "quick":
-        ids = ids[:60]
+        # stratified over (warnings= value, file has a parse/templating error, file has a fixable violation), so that
+        # every suppression mode meets an error file with something to fix in every quick run
+        from vfw.gen.corpus import stratified_sample
+
+        def stratum(i):
+            sc = cliscen.gen(i)
+            t = set(sc["tags"])
+            return (str(sc["config"]["core"].get("warnings")), bool(t & {"prs", "tmp", "tmp_fatal"}), "fixable" in t)
+
+        ids = stratified_sample(ids, stratum, 72, seed)
     return [{"id": f"scen:{i}", "idx": i} for i in ids]
 
 
